@@ -808,8 +808,10 @@ class H2Connection:
         if not self.config.client_side:
             stream = self._get_stream_by_id(stream_id)
 
-        # Check we can open the stream.
-        if stream_id not in self.streams:
+        # Check we can open the stream. A stream we have promised starts to
+        # count against the peer's limit when we send its response headers.
+        if (stream_id not in self.streams or
+                self.streams[stream_id].reserved):
             max_open_streams = self.remote_settings.max_concurrent_streams
             if (self.open_outbound_streams + 1) > max_open_streams:
                 raise TooManyStreamsError(
@@ -1655,9 +1657,11 @@ class H2Connection:
         # stream ID is valid. Only a frame that would open a new stream counts
         # against the limit: frames for streams that are already closed are
         # dealt with according to how those streams were closed.
-        if (frame.stream_id not in self.streams and
+        if ((frame.stream_id not in self.streams and
                 not self._stream_id_is_outbound(frame.stream_id) and
-                frame.stream_id > self.highest_inbound_stream_id):
+                frame.stream_id > self.highest_inbound_stream_id) or
+                (frame.stream_id in self.streams and
+                 self.streams[frame.stream_id].reserved)):
             max_open_streams = self.local_settings.max_concurrent_streams
             if (self.open_inbound_streams + 1) > max_open_streams:
                 raise TooManyStreamsError(
